@@ -13,7 +13,8 @@ THEOREMS = [P + n for n in ("C25_preimage_add", "C25_pair_exact", "C25_lone_boun
                             "C25_extract_eq_not_pre", "C25_extract_ule_not_pre", "C25_shl_uge", "C25_shl_ule_not_pre", "C25_combine_bounds")] + \
            [L + n for n in ("Win_preimage_add", "Win_rot", "cd_rot", "add_ule_pair", "add_uge_pair", "balAddPair_exact")] + \
            [P + n for n in ("C25_align_sound", "C25_step_holds", "C25_add_rot", "C25_sub_rot", "C25_balance_holds", "C25_balance_rot",
-                            "C25_handle_sound", "C25_balancer_sound", "C25_pair_sound", "C25_replacement_interval", "C25_mixed_path_cuts_off_model")]
+                            "C25_handle_sound", "C25_balancer_sound", "C25_pair_sound", "C25_balancer_sound_pair", "C25_unsat_sound",
+                            "C25_replacement_interval", "C25_mixed_path_cuts_off_model")]
 TESTS = [P + "test_pair_example", P + "test_covered_example"]
 
 
@@ -162,7 +163,7 @@ def theorem_class(op, info):
     if not any(mods):
         return "C25_balancer_sound(no constant moved across +/-)"
     if flags[0] == "m" and flags[1] == "m" and finals[0] == finals[1]:
-        return "C25_pair_sound(both paths only +/-, same expression)"
+        return "C25_balancer_sound_pair(both paths only +/-, same expression)"
     return "mixed-paths(guard of the theorems fails: the class of the open finding)"
 
 CMPS = ["ULT", "ULE", "UGT", "UGE", "SLT", "SLE", "SGT", "SGE", "eq", "ne"]
